@@ -232,6 +232,8 @@ class Interp:
             from . import models_np
 
             return models_np.elementwise2(self, a, b, "eq")
+        if isinstance(a, Opaque) and isinstance(b, Opaque) and a is not b and getattr(a, "distinct", False) and getattr(b, "distinct", False):
+            return False  # distinct entities without __eq__ compare by identity
         if self.lenient and (isinstance(a, Opaque) or isinstance(b, Opaque)):
             if a is b:
                 return True
@@ -1380,6 +1382,16 @@ class Interp:
 
     def contains(self, cont, x):
         cont = self.unwrap(cont)
+        from . import models_h5 as _h5
+
+        if isinstance(cont, (_h5.H5Node, _h5.H5Attrs)):
+            return _h5.contains(self, cont, x)
+        if isinstance(x, Opaque) and isinstance(cont, (PList, tuple, list)):
+            items = cont.items if isinstance(cont, PList) else list(cont)
+            if any(y is x for y in items):
+                return True
+            if getattr(x, "distinct", False) and all(isinstance(y, Opaque) and getattr(y, "distinct", False) for y in items):
+                return False
         if self.lenient and (isinstance(cont, Opaque) or (isinstance(x, Opaque) and not isinstance(cont, (SDict, SList)))):
             kx = id(x) if isinstance(x, (Opaque, Obj)) else repr(x)
             return self.opaque_bool(("in", id(cont), kx), "in?")
